@@ -98,7 +98,9 @@ func ValidateAggregateAndProof(ctx context.Context, signedAgg *phase0.SignedAggr
 			return nil, GossipValidatorResult{IGNORE, errors.New("block not in subtree of finalized root")}
 		}
 	} else if fin.Epoch > att.Data.Target.Epoch {
-		return nil, GossipValidatorResult{REJECT, errors.New("cannot vote for finalized root as target")}
+		// A vote for the finalized block with a target older than the finalized epoch is stale, not malicious:
+		// an honest vote ends up here through timing alone (finality advanced within the propagation range).
+		return nil, GossipValidatorResult{IGNORE, errors.New("vote for the finalized root with a target older than the finalized epoch")}
 	}
 
 	// 3 combined steps:
